@@ -19,19 +19,6 @@ Definition cres_eqb (a b : option Z * bool) : bool :=
   match fst a, fst b with Some x, Some y => x =? y | None, None => true | _, _ => false end && Bool.eqb (snd a) (snd b).
 
 (** C18 cache clauses evaluated on the implementation's own observations of one sequence *)
-(** "without re-querying": the callback ran although an earlier call for the same key stored a success whose
-    lifetime [op_expire] (positive) has not yet run out *)
-Definition requeried_early (hist : list (cop * (option Z * bool))) (o : cop) (r : option Z * bool) : bool :=
-  snd r && existsb (fun h => (op_key (fst h) =? op_key o) && snd (snd h)
-                             && match fst (snd h) with Some _ => true | None => false end
-                             && (0 <? op_expire (fst h)) && (op_now o <? op_now (fst h) + op_expire (fst h))) hist.
-
-Fixpoint cache_norequery (hist : list (cop * (option Z * bool))) (ops : list cop) (res : list (option Z * bool)) : bool :=
-  match ops, res with
-  | o :: ro, r :: rr => negb (requeried_early hist o r) && cache_norequery ((o, r) :: hist) ro rr
-  | _, _ => true
-  end.
-
 Fixpoint cache_spec (hist : list (cop * (option Z * bool))) (ops : list cop) (res : list (option Z * bool)) : bool :=
   match ops, res with
   | [], [] => true
